@@ -207,6 +207,17 @@ func (m *Machine) schedule(g0 *G) (string, string) {
 			m.reportHang()
 			return "hang", m.hangString()
 		}
+		if m.exploreSched && m.timeSlip > 0 && m.slips < 4 {
+			// The ghost clock stands still while goroutines run. Real code takes time: a timer that is due within the
+			// slip window may fire now, between any two synchronisation operations of the running goroutines (its
+			// callback becomes one more runnable goroutine). One more scheduling alternative.
+			if t := m.slipTimer(); t != nil && m.chooseSafe(2, "timer-slip") == 1 {
+				m.slips++
+				m.clockTo(t.when)
+				m.fireTimer(t)
+				continue
+			}
+		}
 		var g *G
 		if m.exploreSched && len(ready) > 1 {
 			// prefer continuing the current goroutine as choice 0
@@ -714,4 +725,36 @@ func (m *Machine) clockString() string {
 		return fmt.Sprint(m.clock.SVal())
 	}
 	return "<symbolic>"
+}
+
+// slipTimer: the earliest active timer that is due within the slip window (constant instants only).
+func (m *Machine) slipTimer() *timerV {
+	if !m.clock.IsConst() {
+		return nil
+	}
+	var best *timerV
+	for _, t := range m.timers {
+		if t.active && !t.never && t.when.IsConst() && t.when.SVal()-m.clock.SVal() <= m.timeSlip {
+			if best == nil || t.when.SVal() < best.when.SVal() {
+				best = t
+			}
+		}
+	}
+	return best
+}
+
+// chooseSafe is Choose for the scheduler's own context (no interpreted goroutine is running): a path abort raised by
+// the decision machinery is handed to the scheduling loop instead of unwinding the host stack.
+func (m *Machine) chooseSafe(n int, what string) (k int) {
+	defer func() {
+		if r := recover(); r != nil {
+			if pa, isPA := r.(pathAbort); isPA {
+				m.abort = &pa
+				k = 0
+				return
+			}
+			panic(r)
+		}
+	}()
+	return m.Choose(nil, n, what)
 }
